@@ -323,3 +323,26 @@ Definition w_delim : table :=
   {| tdt := [ {| fname := [x73]; fkind := KStr 3; forder := NA; fshape := [] |};
               {| fname := [x69]; fkind := KInt true 4; forder := LE; fshape := [] |} ];
      trows := [ [[[x3b; x61; x00]]; [[x01; x00; x00; x00]]]; [[[x3b; x62; x00]]; [[x02; x00; x00; x00]]] ] |}.
+
+(* ------------------------------------------------------------------ known finding class kf_float_print_overflow
+   some FINITE floating-point element is printed (to 16 / 7 digits, rounded up) as a text whose value exceeds the largest
+   finite number of the format, so that it is read back as an infinity.  With "%.16g" these are exactly the two largest
+   finite binary64 values of either sign (1.7976931348623157e308 and its predecessor print as 1.797693134862316e+308). *)
+Section Overflow.
+  Variable F P : nat -> list byte -> list byte.
+  Definition is_finite (v : fval) : bool := match v with FFin _ => true | _ => false end.
+  Definition is_infinite (v : fval) : bool := match v with FInf _ => true | _ => false end.
+  Definition overflow_el_b (f : fld) (e : list byte) : bool :=
+    match fkind f with KFlt sz => is_finite (fdecode e) && is_infinite (fdecode (P sz (F sz e))) | _ => false end.
+  Fixpoint overflow_row_b (fs : list fld) (r : row) : bool :=
+    match fs, r with
+    | f :: fs', els :: r' => existsb (overflow_el_b f) els || overflow_row_b fs' r'
+    | _, _ => false
+    end.
+  Definition kf_float_print_overflow (t : table) : bool :=
+    existsb (fun r => overflow_row_b (tdt t) (to_native_row (tdt t) r)) (trows t).
+End Overflow.
+(* [('x','f8')], one row holding the largest finite binary64 *)
+Definition w_dblmax : table :=
+  {| tdt := [ {| fname := [x78]; fkind := KFlt 8; forder := LE; fshape := [] |} ];
+     trows := [ [[[xff; xff; xff; xff; xff; xff; xef; x7f]]] ] |}.
